@@ -51,6 +51,53 @@ theorem lookup_append_single (k k2 : κ) (v : α) (l : List (κ × α)) :
     · simp [lookup, h]
     · simp [lookup, h, ih]
 
+theorem lookup_erase_self (k : κ) (l : List (κ × α)) : lookup k (erase k l) = none := by
+  induction l with
+  | nil => rfl
+  | cons x r ih =>
+    obtain ⟨k', v'⟩ := x
+    by_cases h : k' = k
+    · simp [erase, h, ih]
+    · simp [erase, lookup, h, ih]
+
+theorem lookup_erase_ne {k k' : κ} (l : List (κ × α)) (h : k' ≠ k) :
+    lookup k' (erase k l) = lookup k' l := by
+  induction l with
+  | nil => rfl
+  | cons x r ih =>
+    obtain ⟨k2, v2⟩ := x
+    by_cases h2 : k2 = k
+    · subst h2
+      have : ¬ k2 = k' := fun e => h e.symm
+      simp [erase, lookup, this, ih]
+    · simp only [erase, h2, if_false, lookup]
+      split
+      · rfl
+      · exact ih
+
+/-- a key found in a list filtered by a key-only predicate satisfies the predicate -/
+theorem lookup_filter_key (q : κ → Bool) (k : κ) (v : α) (l : List (κ × α))
+    (h : lookup k (l.filter (fun kv => q kv.1)) = some v) : q k = true ∧ lookup k l = some v := by
+  induction l with
+  | nil => simp [lookup] at h
+  | cons x r ih =>
+    obtain ⟨k', v'⟩ := x
+    by_cases hq : q k' = true
+    · simp only [List.filter, hq] at h
+      by_cases hk : k' = k
+      · subst hk
+        simp only [lookup, if_true] at h ⊢
+        exact ⟨hq, h⟩
+      · simp only [lookup, hk, if_false] at h ⊢
+        exact ih h
+    · have hq' : q k' = false := by simpa using hq
+      simp only [List.filter, hq'] at h
+      obtain ⟨h1, h2⟩ := ih h
+      by_cases hk : k' = k
+      · subst hk; rw [hq'] at h1; cases h1
+      · simp only [lookup, hk, if_false]
+        exact ⟨h1, h2⟩
+
 end maps
 
 theorem lookup_addShell (k k' : Key) (l : List (Key × NodeInfo)) :
@@ -302,6 +349,128 @@ theorem stepNode_spec (s : State) (n : NodeAnn) :
           simp only
           split <;> simp
 
+/-! ### the zombie index -/
+
+/-- no output of the announced scid satisfies the funding requirements -/
+def BadFunding (s : State) (a : ChanAnn) : Prop := ∀ v, ¬ FundingOk s a v
+
+/-- an update that may take `c` out of the zombie index: on our chain, non-zero, not older than the
+    prune horizon, signed by the key the index recorded for its direction (which must be set) -/
+def ZombieResurrect (cfg : Cfg) (now : Nat) (z : Option (Key × Key)) (u : ChanUpd) : Prop :=
+  ∃ ks, z = some ks ∧ zombieKey ks (dirOf u.cf) ≠ 0 ∧
+    u.sig = Sig.mk (zombieKey ks (dirOf u.cf)) u.digest ∧ u.chain = 0 ∧ u.ts ≠ 0 ∧
+    now ≤ (u.ts + cfg.expiry) * nsPerSec
+
+/-- `handleChanAnnouncement` touches the zombie index only by marking the announced scid (zero
+    keys) when a fully signed announcement has no acceptable funding output. -/
+theorem stepCa_zombies (cfg : Cfg) (s : State) (p : Peer) (a : ChanAnn) :
+    (stepCa cfg s p a).1.st.g.zombies = s.g.zombies ∨
+    ((stepCa cfg s p a).2 = false ∧ a.chain = 0 ∧ CaSigned a ∧ cfg.assumeValid = false ∧
+      BadFunding s a ∧
+      (stepCa cfg s p a).1.st.g.zombies = upsert a.scid (0, 0) s.g.zombies) := by
+  generalize h : stepCa cfg s p a = r
+  unfold stepCa at h
+  split at h
+  · subst h; left; rfl
+  · rename_i hchain
+    split at h
+    · subst h; left; rfl
+    · split at h
+      · subst h; left; rfl
+      · split at h
+        · subst h; left; rfl
+        · split at h
+          · subst h; left; rfl
+          · rename_i hsig
+            have hsig' : CaSigned a := (sigsOk_iff a).1 (by simpa using hsig)
+            have hch : a.chain = 0 := by simpa using hchain
+            split at h
+            · subst h; left; rfl
+            · rename_i hav
+              have hav' : cfg.assumeValid = false := by simpa using hav
+              split at h
+              · rename_i z hlk
+                subst h
+                cases z with
+                | false => left; rfl
+                | true =>
+                  right
+                  refine ⟨rfl, hch, hsig', hav', ?_, rfl⟩
+                  intro v hv; unfold FundingOk at hv; rw [hlk] at hv; cases hv
+              · rename_i hlk
+                subst h; right
+                refine ⟨rfl, hch, hsig', hav', ?_, rfl⟩
+                intro v hv; unfold FundingOk at hv; rw [hlk] at hv; cases hv
+              · rename_i sc v0 sp hlk
+                split at h
+                · rename_i hsc
+                  subst h; right
+                  refine ⟨rfl, hch, hsig', hav', ?_, rfl⟩
+                  intro v hv; unfold FundingOk at hv; rw [hlk] at hv
+                  injection hv with e1 _ _
+                  exact hsc e1
+                · split at h
+                  · rename_i hsp
+                    subst h; right
+                    refine ⟨rfl, hch, hsig', hav', ?_, rfl⟩
+                    intro v hv; unfold FundingOk at hv; rw [hlk] at hv
+                    injection hv with _ _ e3
+                    omega
+                  · split at h
+                    · subst h; left; rfl
+                    · subst h; left; rfl
+
+/-- `handleChanUpdate` touches the zombie index only by removing the update's scid, for an
+    unknown channel, when the update is an authenticated, fresh resurrection. -/
+theorem stepUpd_zombies (cfg : Cfg) (now : Nat) (s : State) (p : Peer) (u : ChanUpd) :
+    (stepUpd cfg now s p u).st.g.zombies = s.g.zombies ∨
+    (ZombieResurrect cfg now (lookup u.scid s.g.zombies) u ∧
+      (stepUpd cfg now s p u).st.g.zombies = erase u.scid s.g.zombies) := by
+  generalize h : stepUpd cfg now s p u = r
+  unfold stepUpd at h
+  split at h
+  · subst h; left; rfl
+  · rename_i hchain
+    split at h
+    · subst h; left; rfl
+    · split at h
+      · subst h; left; rfl
+      · rename_i hts
+        split at h
+        · subst h; left; rfl
+        · rename_i hstale
+          split at h
+          · subst h; left; rfl
+          · split at h
+            · rename_i hnone
+              split at h
+              · rename_i ks hz
+                split at h
+                · subst h; left; rfl
+                · rename_i hkey
+                  split at h
+                  · subst h; left; rfl
+                  · rename_i hv
+                    subst h
+                    right
+                    refine ⟨⟨ks, hz, hkey, (verify_iff _ _ _).1 (by simpa using hv),
+                      by simpa using hchain, hts, ?_⟩, rfl⟩
+                    have hst : staleUpd cfg now s.g u = false := by simpa using hstale
+                    unfold staleUpd at hst
+                    rw [hnone] at hst
+                    simp only [hz] at hst
+                    split at hst
+                    · cases hst
+                    · have : ¬ now > (u.ts + cfg.expiry) * nsPerSec := by simpa using hst
+                      omega
+              · subst h; left; rfl
+            · (repeat' (first | (simp only at h) | (split at h))) <;>
+                (subst h; left; first | rfl | (simp only; split <;> rfl))
+
+theorem stepNode_zombies (s : State) (n : NodeAnn) : (stepNode s n).st.g.zombies = s.g.zombies := by
+  unfold stepNode
+  (repeat' split) <;> rfl
+
 /-! ### dispatch and replays -/
 
 theorem dispatch_cu_snd (cfg : Cfg) (now : Nat) (s : State) (p : Peer) (u : ChanUpd) :
@@ -412,6 +581,88 @@ theorem runUpdates_spec (cfg : Cfg) (now : Nat) (l : List (Peer × ChanUpd)) :
           exact ⟨x, List.mem_cons_self, this, hauth⟩
       · obtain ⟨pu, hmem, hy', ha⟩ := ihrel y hy
         exact ⟨pu, List.mem_cons_of_mem _ hmem, hy', by rw [hc] at ha; exact ha⟩
+
+theorem dispatch_cu_zombies (cfg : Cfg) (now : Nat) (s : State) (p : Peer) (u : ChanUpd) :
+    (dispatch cfg now s p (.cu u)).1.st.g.zombies = s.g.zombies ∨
+    (ZombieResurrect cfg now (lookup u.scid s.g.zombies) u ∧
+      (dispatch cfg now s p (.cu u)).1.st.g.zombies = erase u.scid s.g.zombies) := by
+  unfold dispatch
+  split
+  · left; rfl
+  · exact stepUpd_zombies cfg now s p u
+
+/-- replayed cached updates change the zombie index only by authenticated resurrection -/
+theorem runUpdates_zombies (cfg : Cfg) (now : Nat) (l : List (Peer × ChanUpd)) :
+    ∀ (acc : Acc) (c : Scid),
+      lookup c (runUpdates cfg now acc l).st.g.zombies = lookup c acc.st.g.zombies ∨
+      ∃ pu, pu ∈ l ∧ pu.2.scid = c ∧
+        ZombieResurrect cfg now (lookup c acc.st.g.zombies) pu.2 ∧
+        lookup c (runUpdates cfg now acc l).st.g.zombies = none := by
+  induction l with
+  | nil => intro acc c; left; rfl
+  | cons x xs ih =>
+    intro acc c
+    rw [runUpdates_cons]
+    have hd := dispatch_cu_zombies cfg now acc.st x.1 x.2
+    have hz : (stepAcc cfg now acc x).st.g.zombies =
+        (dispatch cfg now acc.st x.1 (.cu x.2)).1.st.g.zombies := rfl
+    rcases ih (stepAcc cfg now acc x) c with h | ⟨pu, hmem, hs, hr, hl⟩
+    · rcases hd with hd | ⟨hres, hd⟩
+      · left; rw [h, hz, hd]
+      · by_cases hc : x.2.scid = c
+        · right
+          refine ⟨x, List.mem_cons_self, hc, by rw [← hc]; exact hres, ?_⟩
+          rw [h, hz, hd, ← hc, lookup_erase_self]
+        · left
+          rw [h, hz, hd, lookup_erase_ne _ (fun e => hc e.symm)]
+    · right
+      refine ⟨pu, List.mem_cons_of_mem _ hmem, hs, ?_, hl⟩
+      rcases hd with hd | ⟨_, hd⟩
+      · rw [hz, hd] at hr; exact hr
+      · by_cases hc : x.2.scid = c
+        · rw [hz, hd, ← hc, lookup_erase_self] at hr
+          obtain ⟨ks, hks, _⟩ := hr
+          cases hks
+        · rw [hz, hd, lookup_erase_ne _ (fun e => hc e.symm)] at hr; exact hr
+
+/-- what a channel announcement (with the replay it may trigger) can do to the zombie index -/
+theorem submit_ca_zombies (cfg : Cfg) (now : Nat) (s : State) (p : Peer) (a : ChanAnn) (c : Scid) :
+    lookup c (submit cfg now s p (.ca a)).2.st.g.zombies = lookup c s.g.zombies ∨
+    (a.scid = c ∧ a.chain = 0 ∧ CaSigned a ∧ cfg.assumeValid = false ∧ BadFunding s a ∧
+      lookup c (submit cfg now s p (.ca a)).2.st.g.zombies = some (0, 0)) ∨
+    (∃ pu, pu ∈ (lookup a.scid s.premature).getD [] ∧ pu.2.scid = c ∧
+      ZombieResurrect cfg now (lookup c s.g.zombies) pu.2 ∧
+      lookup c (submit cfg now s p (.ca a)).2.st.g.zombies = none) := by
+  simp only [submit]
+  split
+  · left; rfl
+  · simp only [submitCore, dispatch]
+    split
+    · left; rfl
+    · rcases stepCa_spec cfg s p a with ⟨h2, _⟩ | ⟨h2, _, _, _, v, _, hst, hr, _⟩
+      · -- not added: only the announcement itself can have marked its scid
+        have hz := stepCa_zombies cfg s p a
+        generalize stepCa cfg s p a = d at h2 hz ⊢
+        obtain ⟨o, b⟩ := d
+        simp only at h2 hz
+        subst h2
+        simp only [Bool.false_eq_true, if_false]
+        rcases hz with hz | ⟨_, hch, hsg, hav, hbad, hz⟩
+        · left; rw [hz]
+        · by_cases hc : a.scid = c
+          · right; left
+            exact ⟨hc, hch, hsg, hav, hbad, by rw [hz, ← hc, lookup_upsert_self]⟩
+          · left; rw [hz, lookup_upsert_ne _ _ (fun e => hc e.symm)]
+      · generalize stepCa cfg s p a = d at h2 hst hr ⊢
+        obtain ⟨o, b⟩ := d
+        simp only at h2 hst hr
+        subst h2
+        simp only [if_true, hst, hr, msgScid, State.addChan]
+        rcases runUpdates_zombies cfg now ((lookup a.scid s.premature).getD [])
+          ⟨{ (s.addChan a v) with premature := erase a.scid s.premature }, [.ca a], []⟩ c with
+          h | ⟨pu, hmem, hs, hres, hl⟩
+        · left; exact h
+        · right; right; exact ⟨pu, hmem, hs, hres, hl⟩
 
 /-! ### `submit` unfolded per message kind -/
 
